@@ -133,9 +133,25 @@ def check_segment(impl, g, c, stats, rng=None, periodic=True):
     L, n = c["length"], c["n"]
     dt = L / n
     ncells = g["shape"][0] * g["shape"][1] * g["shape"][2]
-    info = {"grid": {k: v for k, v in g.items() if k not in ("cases", "traces", "_mat_id", "_mat_vm")},
+    info = {"grid": {k: v for k, v in g.items() if k not in ("cases", "traces", "_mat_id", "_mat_vm", "_g360", "trace_errors")},
             "call": {k: c[k] for k in ("step", "min_samples", "m12", "p0", "p1", "class") if k in c},
             "start_local": s, "end_local": e, "length": L, "n": n, "dt": dt}
+    # "cell" = geometric cell.  A grid with period < 360 is, per the property, the 360-degree grid whose voxel map
+    # is the periodic tiling: chords and the one-source-per-cell run are taken on that 360-degree grid.
+    geom, vm_geom = g, g["vm"]
+    if kind == "cyl" and g["period"] < 360:
+        if "_g360" not in g:
+            ns = int(round(360.0 / g["period"]))
+            nr, nphi, nz = g["shape"]
+            vm3 = np.array(g["vm"], dtype=np.int32).reshape(nr, nphi, nz)
+            g["_g360"] = {"kind": "cyl", "shape": [nr, nphi * ns, nz], "dr": g["dr"], "dz": g["dz"], "rmin": g["rmin"],
+                          "dphi": g["dphi"], "nphi": nphi * ns, "period": 360.0, "rmax": g["rmax"], "zmax": g["zmax"],
+                          "vm": [int(v) for v in np.tile(vm3, (1, ns, 1)).ravel()]}
+        geom = g["_g360"]
+        vm_geom = geom["vm"]
+    g_real = g
+    g = geom
+    ncells = g["shape"][0] * g["shape"][1] * g["shape"][2]
     seq = chords_cart(g, s, e) if kind == "cart" else chords_cyl(g, s, e)
     if any(not in_shape(g, cell) for cell, _ in seq):
         return fails          # not a ray inside the grid: outside the property's domain
@@ -147,11 +163,28 @@ def check_segment(impl, g, c, stats, rng=None, periodic=True):
     tot = sum(e_id)
     if abs(tot - L) > EPS * max(L, 1.0):
         fails.append(dict(info, claim="with every cell active the entries sum to the length of the chord", sum=tot, expected=L))
+    # A path that runs inside a cell face up to rounding (constant coordinate within 1e-9 of a border without being
+    # exactly on it, e.g. fl(3 * dz) for a non-dyadic dz) belongs to either neighbour: the per-cell comparison is
+    # skipped for it (sums, merged maps and periodicity are still checked).
+    degenerate = False
+    dloc = [e[a] - s[a] for a in range(3)]
+    sizes = g["steps"] if kind == "cart" else [None, None, g["dz"]]
+    for a in range(3):
+        if sizes[a] is not None and dloc[a] == 0:
+            q = Fraction(s[a]) / Fraction(sizes[a])
+            if q.denominator != 1 and abs(float(q) - round(float(q))) < 1e-9:
+                degenerate = True
+    if kind == "cyl" and dloc[0] == 0 and dloc[1] == 0:
+        q = (math.hypot(s[0], s[1]) - g["rmin"]) / g["dr"]
+        if abs(q - round(q)) < 1e-9:
+            degenerate = True
+    if degenerate:
+        stats["degenerate_in_face"] = stats.get("degenerate_in_face", 0) + 1
     chord = {}
     for cell, fr in seq:
         chord[flat(g, cell)] = chord.get(flat(g, cell), 0) + fr
     worst = None
-    for k in range(ncells):
+    for k in range(ncells if not degenerate else 0):
         ex = float(chord.get(k, 0) * Fraction(L)) if kind == "cart" else chord.get(k, 0.0) * L
         dev = abs(e_id[k] - ex)
         stats["cells_compared"] += 1
@@ -161,12 +194,13 @@ def check_segment(impl, g, c, stats, rng=None, periodic=True):
         fails.append(dict(info, claim="each cell's entry differs from the exact chord length in that cell by at most two integration steps",
                           cell_flat_index=worst[1], entry=worst[2], exact_chord=worst[3], deviation=worst[0], two_dt=2 * dt))
     # P3 / P4 with the grid's voxel map
-    vm = g["vm"]
+    vm = vm_geom
+    g = g_real
     bins = max(vm) + 1
     if g.get("bins", bins) != bins:
         fails.append(dict(info, claim="bins = largest source index + 1", bins=g.get("bins"), expected=bins))
     if "_mat_vm" not in g:
-        g["_mat_vm"] = impl.material(g, vm=vm)
+        g["_mat_vm"] = impl.material(g, vm=g["vm"])
     e_vm, err = impl.call(kind, g["_mat_vm"], c["step"], c["min_samples"], c["m12"], c["p0"], c["p1"], [0.0] * bins)
     want = [0.0] * bins
     for k in range(ncells):
@@ -176,7 +210,8 @@ def check_segment(impl, g, c, stats, rng=None, periodic=True):
     for sidx in range(bins):
         if abs(e_vm[sidx] - want[sidx]) > EPS * max(L, 1.0):
             fails.append(dict(info, claim="each source's entry equals the sum of the entries of its cells under the one-source-per-cell "
-                                          "map (cells mapped to -1 / outside the mask receive nothing)",
+                                          "map (cells mapped to -1 / outside the mask receive nothing"
+                                          + ("; periodic grid = 360-degree grid with the tiled map)" if geom is not g else ")"),
                               source=sidx, entry=e_vm[sidx], sum_of_cells=want[sidx]))
             break
     if "out" in c and "init" in c and len(c["init"]) == bins and not c.get("err"):
@@ -189,14 +224,14 @@ def check_segment(impl, g, c, stats, rng=None, periodic=True):
     runs, prev = 0, False
     act = 0
     for cell, fr in seq:
-        a = vm[flat(g, cell)] >= 0
+        a = vm[flat(geom, cell)] >= 0
         if a:
             act += fr
             if not prev:
                 runs += 1
         prev = a
     act = float(act * Fraction(L)) if kind == "cart" else act * L
-    if abs(sum(e_vm) - act) > 2 * dt * runs + EPS * max(L, 1.0):
+    if not degenerate and abs(sum(e_vm) - act) > 2 * dt * runs + EPS * max(L, 1.0):
         fails.append(dict(info, claim="the entries sum to the length of the chord inside the active cells", sum=sum(e_vm),
                           chord_in_active_cells=act, active_runs=runs, dt=dt))
     # P5: periodic image
@@ -331,5 +366,40 @@ def search_other_periods(impl, rng, count, stats):
                               "grid": {k: v for k, v in g.items() if not k.startswith("_")}, "p0": p0, "p1": p1, "step": step,
                               "periodic": eP, "tiled": e360})
         if len(fails) > 5:
+            break
+    return fails
+
+
+# ---------------------------------------------------------------------------------------------
+def search_pipeline(impl, rng, count, stats):
+    """pipelines.py: a sight line whose pixel samples are all the same ray must give, as its ray-transfer matrix, the
+    spectrum of that one ray (mean over the samples; 'power' additionally multiplied by the sensitivity)."""
+    from raysect.optical import World, Ray, Point3D, Vector3D, translate, rotate_y
+    from raysect.optical.observer import SightLine
+    from raysect.core.workflow import SerialEngine
+    from cherab.tools.raytransfer import RayTransferBox, RayTransferPipeline0D
+    fails = []
+    for _ in range(count):
+        world = World()
+        nx, ny, nz = rng.randint(1, 4), rng.randint(1, 3), rng.randint(1, 3)
+        rtb = RayTransferBox(2.0, 1.0, 1.0, nx, ny, nz, parent=world)
+        y0, z0 = rng.uniform(0.05, 0.95), rng.uniform(0.05, 0.95)
+        kind = rng.choice(["radiance", "power"])
+        sens = rng.choice([1.0, 2.5])
+        pipe = RayTransferPipeline0D(kind=kind)
+        sl = SightLine(pipelines=[pipe], parent=world, transform=translate(-1.0, y0, z0) * rotate_y(90))
+        sl.min_wavelength, sl.max_wavelength, sl.spectral_bins = 500., 501., rtb.bins
+        sl.pixel_samples = rng.choice([1, 3, 8])
+        sl.sensitivity = sens
+        sl.quiet = True
+        sl.render_engine = SerialEngine()
+        sl.observe()
+        ray = Ray(origin=Point3D(-1.0, y0, z0), direction=Vector3D(1, 0, 0), min_wavelength=500., max_wavelength=501., bins=rtb.bins)
+        ref = np.array(ray.trace(world).samples) * (sens if kind == "power" else 1.0)
+        stats["pipeline"] = stats.get("pipeline", 0) + 1
+        if pipe.matrix.shape != ref.shape or np.abs(pipe.matrix - ref).max() > 1e-9:
+            fails.append({"claim": "the ray-transfer pipeline returns the mean of the per-ray entries (times the sensitivity for kind='power')",
+                          "grid": [nx, ny, nz], "origin": [-1.0, y0, z0], "kind": kind, "sensitivity": sens,
+                          "pixel_samples": sl.pixel_samples, "matrix": [float(v) for v in pipe.matrix], "single_ray": [float(v) for v in ref]})
             break
     return fails
